@@ -484,6 +484,7 @@ structure FieldDecl where
   default : Option Val
   onError : Option Policy          -- Field(on_error=…); none ⇒ options.invalid_values (field.py:800-803)
   deps : List String := []         -- Field(dependencies=[…]): fields that must be given when this one is
+  posOnly : Bool := false          -- a positional-only parameter (`/`): never looked up by keyword
   deriving Repr, Inhabited
 
 abbrev Data := List (String × Val)
@@ -548,7 +549,8 @@ def dfStep1 (rec : P) (m : Mode) (o : Opts) (decl : List FieldDecl) (excluded : 
   match decl.find? (fun f => f.name == kv.1) with
   | none => additionStep rec m o acc kv
   | some f =>
-    if excluded.contains f.name then .keep acc
+    if f.posOnly then additionStep rec m o acc kv      -- base.py:479 `not field or field.positional_only`
+    else if excluded.contains f.name then .keep acc
     else
       match store f.name acc.1 (fieldValue rec m o f kv.2) with
       | .keep r => .keep (r, acc.2)
@@ -666,6 +668,58 @@ def parseData (rec : P) (decl : List FieldDecl) (ex : List String) (g : Bool) (c
   andThen (runLoop (countStep c.o data.length) c (if g then [true, false] else []) ()) fun c0 _ =>
   if c.o.dfs then dataFirst rec decl ex g c0 data else fieldFirst rec decl ex g c0 data
 
+/-! #### output properties of a Schema (schema.py:228-286, field.py:1026-1054)
+
+After the input was accepted (`parser(kwargs, context)` ended with `raise_error()`), `__post_init__` computes every
+`@property` field and converts the result to the return annotation — in a sub-context of its own, so only the
+verdict matters; a failure becomes one `ParseError(item=name)` handled in the instance's context, or is dropped /
+kept raw by the policy (`Field(on_error=…)` of the property, else `invalid_values`); then `raise_error()` again. -/
+
+/-- what the getter returns: a constant, or the parsed value of a field (none: not computable, the property is skipped) -/
+inductive PropSrc where
+  | const (v : Val)
+  | field (name : String)
+  deriving Repr, Inhabited
+
+structure PropDecl where
+  name : String
+  ty : Option Ty                 -- the return annotation
+  onError : Option Policy
+  src : PropSrc
+  deriving Repr, Inhabited
+
+def PropDecl.compute (p : PropDecl) (res : Data) : Option Val :=
+  match p.src with
+  | .const v => some v
+  | .field n => res.lookup n
+
+/-- `__coerce_property__` + `parse_output_value` for one property -/
+def propStep (rec : P) (m : Mode) (o : Opts) (res : Data) (acc : Data) (p : PropDecl) : Step Data :=
+  match p.compute res with
+  | none => .keep acc                                          -- schema.py:245-255 the getter raised: skipped
+  | some attr =>
+    match p.ty with
+    | none => .keep (assocSet p.name attr acc)                 -- field.py:1028-1029
+    | some T =>
+      match verdict rec T m o attr with                        -- :1033-1034
+      | some r => .keep (assocSet p.name r acc)
+      | none =>
+        match p.onError.getD o.invalidValues with
+        | .exclude => .keep acc                                -- :1047-1048, 1054
+        | .preserve => .keep (assocSet p.name attr acc)        -- :1049-1051
+        | .throw => .report { kind := .parse, item := some p.name } acc   -- :1053-1054
+
+/-- `Schema.__init__`: `parser(kwargs, context)` (parse_data + raise_error), then `__post_init__` -/
+def parseSchema (rec : P) (decl : List FieldDecl) (props : List PropDecl) (c : Ctx) (data : Data) : Ctx × Res Data :=
+  andThen (parseData rec decl [] true c data) fun c1 res =>
+  andThen (finish c1 res) fun c2 res =>                        -- base.py:349
+  andThen (runLoop (propStep rec c.mode c.o res) c2 props res) fun c3 out =>
+  finish c3 out                                                -- schema.py:286
+
+def runSchema (W : World) (fuel : Nat) (decl : List FieldDecl) (props : List PropDecl) (m : Mode) (o : Opts)
+    (data : Data) : Res Data :=
+  (parseSchema (parse W fuel) decl props (clean0 m o) data).2
+
 /-- a type called on a value with a fresh context of the given options (`type_transform(value, T, options=…)`) -/
 def runType (W : World) (fuel : Nat) (T : Ty) (m : Mode) (o : Opts) (v : Val) : Res Val :=
   (parse W fuel T (clean0 m o) v).2
@@ -683,8 +737,9 @@ Fragment: positional-or-keyword parameters (no `/`, no excluded `_x` names), the
 keyword-only parameters and optionally `**kwargs`.  `npos` positional parameters are the first `npos` fields. -/
 
 structure Sig where
-  decl : List FieldDecl        -- all parameters that are fields, positional ones first
+  decl : List FieldDecl        -- all parameters that are fields, positional ones first (positional-only first of all)
   npos : Nat                   -- how many of them can be given by position
+  nposOnly : Nat := 0          -- how many of those are positional-only
   hasVar : Bool                -- `*args` declared
   posTy : Option Ty            -- its annotation
   deriving Repr
@@ -717,11 +772,24 @@ def posStep (rec : P) (m : Mode) (o : Opts) (sg : Sig) (acc : List Val × List S
       | .report e (some r) => .report e (acc.1 ++ [r], acc.2 ++ [f.name])
       | .abort e x => .abort e x
 
-/-- `FunctionParser.parse_params` (func.py:611-680) on a fresh context -/
+/-- one iteration of the loop over the positional-only parameters (func.py:657-677): one that was not given is
+reported absent when required, otherwise its default is appended in its own slot; its name joins `parsed_keys`
+(unless it was reported) -/
+def posOnlyStep (acc : List Val × List String) (it : FieldDecl × Nat) : Step (List Val × List String) :=
+  if acc.2.contains it.1.name then .keep acc
+  else if it.1.required then .report { kind := .absence, item := some it.1.name } acc
+  else
+    match it.1.default with
+    | some d => .keep (if acc.1.length == it.2 then acc.1 ++ [d] else acc.1, acc.2 ++ [it.1.name])
+    | none => .keep (acc.1, acc.2 ++ [it.1.name])
+
+/-- `FunctionParser.parse_params` (func.py:611-683) on a fresh context: positional arguments, positional-only
+parameters that were not given, the keyword mapping, `raise_error()` -/
 def parseCall (rec : P) (sg : Sig) (c : Ctx) (args : List Val) (kwargs : Data) : Ctx × Res (List Val × Data) :=
   andThen (runLoop (posStep rec c.mode c.o sg) c args.zipIdx ([], [])) fun c1 acc =>
-  andThen (parseData rec sg.decl acc.2 true c1 kwargs) fun c2 kw =>
-  finish c2 (acc.1, kw)                                        -- :679
+  andThen (runLoop posOnlyStep c1 (sg.decl.take sg.nposOnly).zipIdx acc) fun c1' acc' =>
+  andThen (parseData rec sg.decl acc'.2 true c1' kwargs) fun c2 kw =>
+  finish c2 (acc'.1, kw)                                       -- :682
 
 def runCall (W : World) (fuel : Nat) (sg : Sig) (m : Mode) (o : Opts) (args : List Val) (kwargs : Data) :
     Res (List Val × Data) :=
@@ -775,12 +843,32 @@ def posFailing (W : World) (fuel : Nat) (sg : Sig) (o : Opts) (it : Val × Nat) 
   else
     match (sg.decl.take sg.npos)[it.2]? with
     | none => none
-    | some f => if isError (runItems W fuel [f] [] .ff o [(f.name, it.1)]) then some f.name else none
+    | some f =>
+      -- given alone *by keyword*: as an ordinary (not positional-only) parameter
+      if isError (runItems W fuel [{ f with posOnly := false }] [] .ff o [(f.name, it.1)]) then some f.name else none
 
 /-- "item `i` of the call fails on its own" -/
 def callFails (W : World) (fuel : Nat) (sg : Sig) (o : Opts) (args : List Val) (kwargs : Data) (i : String) : Bool :=
   args.zipIdx.any (fun it => posFailing W fuel sg o it == some i) ||
   failsAloneX W fuel sg.decl (givenPos sg args) o kwargs i
+
+/-- an output property as a field of its own (like `varField`): its annotation, its policy -/
+def propField (p : PropDecl) (o : Opts) : FieldDecl :=
+  { name := p.name, ty := p.ty, required := false, default := none, onError := some (p.onError.getD o.invalidValues) }
+
+/-- "output property `p` fails on its own": its source is fine (a constant, or a field that parses alone) and the
+computed value is rejected by the return annotation under the `throw` policy -/
+def propFails (W : World) (fuel : Nat) (decl : List FieldDecl) (o : Opts) (data : Data) (p : PropDecl) : Bool :=
+  let attr : Option Val :=
+    match p.src with
+    | .const v => some v
+    | .field n =>
+      match runItems W fuel (declOf decl n) [] .ff o (dataOf data n) with
+      | .ok res => res.lookup n
+      | .error _ => none
+  match attr with
+  | none => false
+  | some a => isError (runItems W fuel [propField p o] [] .ff o [(p.name, a)])
 
 /-- the errors of the whole mapping an (uncapped) collecting parse reports: they name no item -/
 def globalReports (rec : P) (m : Mode) (o : Opts) (decl : List FieldDecl) (ex : List String) (data : Data) : List Err :=
